@@ -76,7 +76,7 @@ Fixpoint steps_match (v : variant) (c : cfg) (init : obs) (s : st) (l : list ste
       (* the governance slash path panics in the application as wired (the slashing keeper holds a copy
          of the multistaking keeper without distributor keeper); a tree where it works must agree with
          the keeper-level slash *)
-      if is_slash_proposal o && (res =? 2) then match ob with None => steps_match v c init s r | Some _ => false end else
+      if is_slash_proposal o && (res =? 2) && negb (v_slash_byref v) then match ob with None => steps_match v c init s r | Some _ => false end else
       match step v c o s, ob with
       (* the next step starts from the observed state, which was just checked to equal the model's state on
          the tracked accounts and denominations (this also keeps the closures of the function-valued maps small) *)
